@@ -58,3 +58,14 @@ const VerifFlateReaderTail = flateReaderTail
 
 // VerifTruncWriter: the writer compressWriter puts between flate.Writer and its destination.
 func VerifTruncWriter(w io.WriteCloser) io.Writer { return &truncWriter{w: w} }
+
+// opening handshake (C12 phase 3)
+
+// VerifEnableCompression / VerifWriteCompression: what the handshake left in the conn (RSV1 accepted / messages deflated).
+func (c *Conn) VerifEnableCompression() bool { return c.enableCompression }
+func (c *Conn) VerifWriteCompression() bool  { return c.enableWriteCompression }
+
+// VerifKeyGUID, VerifIsTokenOctet, VerifAcceptKey, VerifCheckSameOrigin: constants and pure helpers of the handshake.
+func VerifKeyGUID() string             { return string(keyGUID) }
+func VerifIsTokenOctet(b byte) bool    { return isTokenOctet[b] }
+func VerifAcceptKey(key string) string { return acceptKeyString(key) }
